@@ -73,6 +73,16 @@ func execKey(op string, a []string) string {
 		if err == nil {
 			b = hxOpt(biv)
 		}
+		// the convenience accessors agree with the generic ones
+		if k != nil {
+			if err == nil && string(k.BaseIV()) != string(biv) || err != nil && k.BaseIV() != nil {
+				return "ACCESSOR-DISAGREES BaseIV"
+			}
+			enc, e1 := key.MarshalCBOR(k)
+			if e1 == nil && string(k.Bytesify()) != string(enc) || e1 != nil && k.Bytesify() != nil {
+				return "ACCESSOR-DISAGREES Bytesify"
+			}
+		}
 		return fmt.Sprintf("ok kty=%d alg=%d ops=%s kid=%s baseiv=%s", k.Kty(), k.Alg(), opsStr(k.Ops()), hxOpt(k.Kid()), b)
 	case "key.factory":
 		// key.factory <kind> <key…> : does the registry hand out an implementation?
